@@ -456,6 +456,12 @@ func (m *Model) Apply(cmd *Cmd) Expect {
 				t.Items[id] = base
 				return Expect{Out: Outcome{Class: "ok", Item: base.Clone()}, Applied: true}
 			default:
+				if anagramOfAny(cmd.T+"|"+UpdText(cmd), c.Updaters) {
+					// the native interpreter files its functions under the sorted
+					// characters of the text: a text that only permutes those of a
+					// registered one may or may not reach it. Nothing is stated.
+					return Expect{Unspecified: true}
+				}
 				// no updater registered for this table and text (unsupported-feature
 				// error), or one that panics: the call fails, nothing changes
 				return Expect{AnyFail: true}
@@ -493,6 +499,9 @@ func (m *Model) Apply(cmd *Cmd) Expect {
 				return Expect{AnyFail: true, MayAccept: true}
 			}
 		}
+		if _, ok := c.Matchers[cmd.T+"|"+FilterText(cmd)]; !ok && c.Native && filter != nil && (anagramOfAny(cmd.T+"|"+FilterText(cmd), c.Matchers) || anagramOfAny(cmd.T+"|"+FilterText(cmd), c.Panicky)) {
+			return Expect{Unspecified: true}
+		}
 		if verdict, ok := c.Matchers[cmd.T+"|"+FilterText(cmd)]; ok && c.Native && filter != nil {
 			// native interpreter active and a Go matcher registered under exactly
 			// this table, kind and text: its answer is what the operation uses
@@ -509,6 +518,27 @@ func (m *Model) Apply(cmd *Cmd) Expect {
 		return Expect{Out: Outcome{Class: "ok", Items: items, Count: len(items)}}
 	}
 	panic("model: unknown op " + cmd.Op)
+}
+
+// anagramOfAny: key is not in m, but some key of m has the same characters in
+// another order.
+func anagramOfAny[V any](key string, m map[string]V) bool {
+	if _, ok := m[key]; ok {
+		return false
+	}
+	sorted := func(s string) string {
+		table, text, _ := strings.Cut(s, "|")
+		b := []byte(strings.TrimSpace(text))
+		sort.Slice(b, func(i, j int) bool { return b[i] < b[j] })
+		return table + "|" + string(b)
+	}
+	want := sorted(key)
+	for k := range m {
+		if len(k) == len(key) && sorted(k) == want {
+			return true
+		}
+	}
+	return false
 }
 
 func orEmpty(it Item) Item {
